@@ -1,4 +1,6 @@
 """C32 — test results do not depend on scheduling; $tb random values reproducible and in range."""
+import sys
+sys.path.insert(0, "/verif/checks")
 import gen
 from vlib import *
 from checks.enc_common import line_differential, replay_lines
@@ -40,6 +42,9 @@ def run(ctx):
         return
     line_differential(ctx, "random", ["--seed", ctx.seed, "--n", tier_n(ctx, 400, 20000), "--len", tier_n(ctx, 30, 60)],
                       stateless=False)
+    # CLI level: `veryl test --seed S --format json` under different CPU sets and dispatch orders
+    import c32_cli
+    c32_cli.run_cli(ctx)
     if not ok:
         if not any(not ni for _, _, ni in ctx.violations):
             proof_broken(ctx, "VerylModel.Props.C32 (or its generated FNV constants) no longer checks")
